@@ -534,6 +534,260 @@ def burst_family(report, drv, store, rng, tier):
                         failures += 1
 
 
+# ---- two threads: the event-loop thread works while the writer thread is in the middle of a task ------------------------
+#
+# Everything above runs the writer's body in the harness thread.  In the relay there are TWO threads that share module-level
+# objects of kv.py (the INDEXES singletons, their key builders, the writer's pending set): the event-loop thread runs add_event
+# (validation, check_storable — which computes every index key of the incoming event —, the duplicate look-up, the queueing),
+# delete_event and the collector; the writer thread computes the keys again while it puts / deletes them one by one.  The engine
+# releases the GIL inside every put / delete, so under load the event-loop thread routinely does a whole add_event between two
+# mutations of one writer task.  C10 does not care: once the writer is idle the keyspace must be coherent, whatever the
+# event-loop thread did in between.
+#
+# This family makes those interleavings deterministic and exhaustive in the place of the cut: the REAL writer thread is started,
+# and parked (by the mutation hook of the LMDB layer; nothing of nostr_relay is replaced) immediately before its k-th put / delete
+# of the task(s) under test; while it is parked the event-loop thread performs real storage-API calls — add_event of OTHER events
+# that share tag names / values with the event(s) being written or cleared, of events with exactly the same tags, of the very same
+# event, of a newer version / a kind-5 deletion of it, delete_event, a collector pass —; then the writer goes on, finishes, and
+# what was queued meanwhile is written too.  For EVERY k of the task (a dry run counts the mutations), for plain writes,
+# delete_event, replacement by a newer version, kind-5 deletion and collector deletions.  Events are small here (3-7 tags, a
+# task is 8-30 mutations) so that every cut can be tried; size is the subject of the burst family above.
+
+TT_PATHS = ["write", "del", "replace", "kind5", "gc"]
+TT_POOL = [["t", "a"], ["t", "ab"], ["t", "b"], ["p", gen.AUTHORS[3]], ["p", gen.AUTHORS[1]], ["e", "00" * 31 + "07"], ["a", "a"],
+           ["r", "wss://a"], ["t", "é"], ["g", "a"], ["delegation", "a"]]
+TT_UNINDEXED = [["client", "a"], ["nonce", "1", "8"], ["t"], ["relay", "wss://a"]]
+
+
+def _tt_tags(rng, n):
+    tags = [list(t) for t in rng.sample(TT_POOL, n)]
+    if rng.random() < 0.4:
+        tags.insert(rng.randrange(len(tags) + 1), list(rng.choice(tags)))                  # a repeated tag
+    if rng.random() < 0.5:
+        tags.insert(rng.randrange(len(tags) + 1), list(rng.choice(TT_UNINDEXED)))
+    if rng.random() < 0.3:
+        tags.append(list(rng.choice(tags)) + ["wss://hint"])                               # same name / value, more items
+    return tags
+
+
+def gen_two_threads(rng, path):
+    """{"setup": ops run to idle, "target": ops whose writer task(s) are cut, "shared": the tags of the events they touch}"""
+    me, other = rng.sample(gen.AUTHORS[:4], 2)
+    t0 = gen.T0 + rng.choice([0, 1, 255])
+    kind = rng.choice([0, 3, 10002, 30000]) if path == "replace" else rng.choice([1, 1, 7, 3, 30000, 30023])
+    tags = _tt_tags(rng, rng.randint(3, 6))
+    if kind >= 30000:
+        tags.insert(rng.randrange(len(tags) + 1), ["d", rng.choice(["", "a"])])
+    if path == "gc":
+        tags.insert(rng.randrange(len(tags) + 1), ["expiration", str(gen.T0 - rng.choice([1, 100]))])
+    a = _ev(rng, me, kind, t0, tags, "A")
+    dtag = [t for t in tags if t[0] == "d"][:1]
+    setup = []
+    if rng.random() < 0.6:
+        # a bystander that is filed under some of the same values: its entries must survive whatever happens to A
+        setup.append(["add", _ev(rng, other, 1, t0 + rng.choice([-1, 0, 1]), [list(t) for t in rng.sample(tags, 2)], "bystander")])
+    shared = [list(t) for t in tags]
+    if path == "write":
+        target = [["add", a]]
+    else:
+        setup.append(["add", a])
+        if path == "del":
+            target = [["del", a["id"]]]
+        elif path == "replace":
+            keep = [list(t) for t in tags if t[0] != "d" and rng.random() < 0.6]
+            new = dtag + keep + [t for t in _tt_tags(rng, rng.randint(1, 3)) if t not in keep]
+            target = [["add", _ev(rng, me, kind, t0 + rng.choice([1, 50]), new, "A2")]]
+            shared += [list(t) for t in new]
+        elif path == "kind5":
+            k5 = [["e", a["id"]]] + [list(t) for t in rng.sample(tags, 2) if t[0] != "e"]
+            target = [["add", _ev(rng, me, 5, t0 + rng.choice([1, 100]), k5, "")]]
+            shared += [list(t) for t in k5]
+        else:
+            target = [["gc", gen.T0]]
+    return {"case": "two-threads", "path": path, "setup": setup, "target": target, "shared": shared, "subject": a,
+            "park": None, "meanwhile": []}
+
+
+def gen_meanwhile(rng, scen):
+    """what the event-loop thread does while the writer is parked: 1-3 storage-API calls, most of them submissions of events
+    that are filed under names / values of the event(s) the writer is busy with"""
+    a, shared = scen["subject"], [t for t in scen["shared"] if len(t) >= 2]
+    authors = gen.AUTHORS[:4]
+    ops = []
+    for _ in range(rng.choice([1, 1, 2, 3])):
+        r = rng.random()
+        ts = a["created_at"] + rng.choice([-1, 0, 1, 7])
+        if r < 0.35:
+            tags = [list(t) for t in rng.sample(shared, rng.randint(1, min(3, len(shared))))]
+            if rng.random() < 0.3:
+                tags += _tt_tags(rng, 1)
+            ops.append(["add", _ev(rng, rng.choice(authors), rng.choice([1, 1, 7]), ts, tags, "B")])
+        elif r < 0.5:
+            ops.append(["add", _ev(rng, rng.choice(authors), 1, ts, [list(t) for t in a["tags"]], "same tags")])
+        elif r < 0.65:
+            ops.append(["add", dict(a)])                                                  # the very same event again
+        elif r < 0.75:
+            ops.append(["add", _ev(rng, a["pubkey"], a["kind"], a["created_at"] + 2,
+                                   [t for t in a["tags"] if t[0] == "d"][:1] + [list(t) for t in rng.sample(shared, 1)], "newer")])
+        elif r < 0.85:
+            ops.append(["add", _ev(rng, a["pubkey"], 5, a["created_at"] + 3, [["e", a["id"]]] + [list(rng.choice(shared))])])
+        elif r < 0.93:
+            ops.append(["del", a["id"] if rng.random() < 0.7 else gen.mkid(rng)])
+        else:
+            ops.append(["gc", gen.T0])
+    return ops
+
+
+class _Park:
+    """mutation hook of the LMDB layer: parks thread `who` immediately before its `at`-th put / delete (None: only counts)"""
+
+    def __init__(self, orig, who, at):
+        import threading
+
+        self._current = threading.current_thread
+        self.orig, self.who, self.at, self.seen = orig, who, at, 0
+        self.reached, self.release = threading.Event(), threading.Event()
+        self.where = None
+
+    def __call__(self, op, key):
+        if op in ("put", "delete") and self._current() is self.who:
+            self.seen += 1
+            if self.seen == self.at:
+                self.where = (op, bytes(key).hex())
+                self.reached.set()
+                self.release.wait(120)
+        return self.orig(op, key)
+
+
+def _tt_queue(report, store, op, st):
+    """one operation through the real storage API, on the event-loop thread (= the harness thread)"""
+    if op[0] == "add":
+        res = store.submit(op[1])
+        if res["ok"] and not (20000 <= op[1]["kind"] < 30000):
+            me = model_event(op[1])
+            if me is None:
+                st["in_model"] = False
+            else:
+                st["lines"].append({"op": "kv.task", "task": {"t": "add", "ev": me}})
+    elif op[0] == "del":
+        store.run(store.storage.delete_event(op[1]))
+        st["lines"].append({"op": "kv.task", "task": {"t": "del", "id": op[1]}})
+    elif op[0] == "gc":
+        # the real collector looks at what is committed now and queues its deletions behind what is waiting
+        queued, orig_del = [], store.storage.delete_event
+
+        async def recording(event_id, _orig=orig_del, _q=queued):
+            _q.append(event_id)
+            return await _orig(event_id)
+
+        kvmod, orig_time = store.kv, store.kv.time
+        kvmod.time = lambda now=op[1]: now
+        store.storage.delete_event = recording
+        try:
+            async def go():
+                with store.env.begin() as conn:
+                    return await store.new_collector().collect(conn)
+            store.run(go())
+        finally:
+            kvmod.time = orig_time
+            del store.storage.delete_event
+        report.count("two_threads_gc_deletions", len(queued))
+        st["lines"] += [{"op": "kv.task", "task": {"t": "del", "id": i}} for i in queued]
+
+
+def run_two_threads(report, drv, store, scen, tag):
+    """One interleaving on a fresh storage object.  Returns {"mutations": put / delete calls of the writer THREAD, "failed"}."""
+    import threading
+
+    store.reset()
+    lmdb = store.kv.lmdb
+    view = _View(store)
+    st = {"lines": [{"op": "kv.reset"}], "in_model": True}
+    stats = {"died": 0}
+    for op in scen["setup"]:
+        _tt_queue(report, store, op, st)
+    _drain(store, "idle", stats)                      # (setup: the writer's body in this thread, as everywhere above)
+    writer = store.writer
+    park = _Park(lmdb._mutation_hook, writer, scen["park"])
+    lmdb._mutation_hook = park
+    try:
+        for op in scen["target"]:
+            _tt_queue(report, store, op, st)
+        writer.queue.put(None)                        # the thread ends when the task(s) under test are done ...
+        writer.running = True
+        threading.Thread.start(writer)                # ... the REAL writer thread (hist.KVStore leaves it unstarted)
+        while not park.reached.wait(0.001) and writer.is_alive():
+            pass
+        parked = park.reached.is_set()
+        if parked:
+            # the writer thread sits inside its task, before the k-th mutation; the event loop goes on serving clients
+            for op in scen["meanwhile"]:
+                _tt_queue(report, store, op, st)
+        park.release.set()
+        writer.join(120)
+        if writer.is_alive():
+            raise RuntimeError("two-threads scenario: the writer thread did not finish")
+        if not parked:
+            for op in scen["meanwhile"]:              # (dry run / cut beyond the end of the task: plainly afterwards)
+                _tt_queue(report, store, op, st)
+    finally:
+        park.release.set()
+        lmdb._mutation_hook = park.orig
+    idle = _drain(store, "idle", stats)               # ... and what was queued meanwhile is written by the same loop
+    failed = False
+    bad = coherence_violations(view) if idle else []
+    if bad:
+        n_dang = sum(1 for b in bad if b[0] == "dangling")
+        report.property_failure(
+            "keyspace incoherent when the writer is idle again: the event-loop thread performed %r (add_event / delete_event / "
+            "collector of the real storage) while the writer THREAD was parked before mutation %r (%r) of the task(s) %r [%s]; "
+            "%d dangling index entries, %d entries missing; first: %r"
+            % ([o[0] for o in scen["meanwhile"]], scen["park"], park.where, [o[0] for o in scen["target"]], scen["path"],
+               n_dang, len(bad) - n_dang, bad[:3]), scen, None)
+        failed = True
+    if not idle:
+        report.count("two_threads_writer_not_idle_after_64_passes")
+    if st["in_model"] and idle and not failed:
+        # the tasks in the order of the queue, one at a time, in the model
+        final = store.dump()
+        got = drv.batch(st["lines"] + [{"op": "kv.dump"}])[-1]
+        if got != final:
+            report.correspondence_break("kv.WriterThread (real thread, event loop active inside a task)", scen,
+                                        summarize(final), summarize(got))
+        report.count("two_threads_tied_to_model")
+    report.case(("two-threads", tag, scen["path"], scen["park"], repr(scen["target"]), repr(scen["meanwhile"])),
+                nontrivial=parked,
+                sample={"case": "two-threads", "path": scen["path"], "writer_parked_before_mutation": scen["park"],
+                        "at": park.where, "tags_of_subject": len(scen["subject"]["tags"]),
+                        "meanwhile": [(o[0], (o[1]["kind"], len(o[1]["tags"])) if o[0] == "add" else o[1]) for o in scen["meanwhile"]]})
+    report.count("two_threads_interleavings" if parked else "two_threads_sequential_runs")
+    report.count("two_threads_path_" + scen["path"], 1 if parked else 0)
+    if parked:
+        report.count("two_threads_parked_in_" + park.where[0])
+        report.count("two_threads_meanwhile_operations", len(scen["meanwhile"]))
+    if stats["died"]:
+        report.count("two_threads_writer_loop_died", stats["died"])
+    return {"mutations": park.seen, "failed": failed}
+
+
+def two_threads_family(report, drv, store, rng, tier):
+    rounds = 4 if tier == "quick" else 40          # (an interleaving costs a few milliseconds: 4 x 5 tasks x every cut is ~300 runs)
+    failures = 0
+    for rnd in range(rounds):
+        for path in TT_PATHS:
+            scen = gen_two_threads(rng, path)
+            dry = run_two_threads(report, drv, store, dict(scen, meanwhile=gen_meanwhile(rng, scen)), (rnd, "dry"))
+            if dry["failed"]:
+                failures += 1
+                continue
+            for k in range(1, dry["mutations"] + 1):
+                if failures >= 3:
+                    return
+                s = dict(scen, park=k, meanwhile=gen_meanwhile(rng, scen))
+                if run_two_threads(report, drv, store, s, (rnd, k))["failed"]:
+                    failures += 1
+
+
 def run(report, tier, seed):
     rng = random.Random(seed)
     drv = common.Driver()
@@ -552,10 +806,16 @@ def run(report, tier, seed):
         "writer gets one pass between two groups, the remover queued first), each also with one engine fault at a sampled mutation "
         "or at the begin of a write transaction; the writer loop runs until its queue is empty and the coherence predicate is "
         "evaluated then; fault-free bursts of up to 700 tags (thorough 2500) are also compared with the model applying the same tasks "
-        "one at a time")
+        "one at a time.  Two threads: the REAL writer thread is parked before its k-th put / delete, for every k, of a write, a "
+        "delete_event, a replacement by a newer version, a kind-5 deletion and the collector's deletions of an event with 3-7 tags, "
+        "while the event-loop thread runs add_event (other events sharing tag names / values, the same tags, the very same event, "
+        "a newer version, a kind-5 deletion) / delete_event / the collector; the coherence predicate is evaluated when the writer "
+        "is idle again and the final key list is compared with the model applying the queued tasks one at a time")
     report.assumptions += [
         "LMDB engine: %s (E2 = real liblmdb 0.9.31 through ctypes; E1 = pure-Python stand-in)" % impl.lmdb.ENGINE,
-        "writer thread body run synchronously in the harness thread (same code, no concurrency)",
+        "writer thread body run synchronously in the harness thread (same code, no concurrency), except in the two-threads family: "
+        "there the real WriterThread is started, and the interleaving with the event-loop thread is fixed by parking it inside "
+        "the LMDB layer's put / delete (where the engine releases the GIL)",
         "queued bursts: 'the writer does not run between two submissions' is produced by not running the (unstarted) writer's loop "
         "until the group is queued; the order of the queue is what a busy writer / a held write lock gives",
         "tag items that are not strings are outside the Lean model; such histories are checked by the oracle only",
@@ -573,6 +833,7 @@ def run(report, tier, seed):
         store = BurstStore()
         try:
             burst_family(report, drv, store, rng, tier)
+            two_threads_family(report, drv, store, rng, tier)
         finally:
             store.close()
     finally:
@@ -589,10 +850,13 @@ def replay(report, path):
     try:
         for it in (data.get("violations") or []) + (data.get("correspondence_breaks") or []):
             r = it.get("replay") or it.get("input")
-            if r.get("case") == "queued-burst":
+            if r.get("case") in ("queued-burst", "two-threads"):
                 store = BurstStore()
                 try:
-                    run_burst(report, drv, store, r, "replay", model_budget=700)
+                    if r["case"] == "two-threads":
+                        run_two_threads(report, drv, store, r, "replay")
+                    else:
+                        run_burst(report, drv, store, r, "replay", model_budget=700)
                 finally:
                     store.close()
                 continue
